@@ -21,6 +21,8 @@ PROPS = {
                 "lengths not divisible by 3); non-trivial = the sequence contains a non-A/C/G/T symbol",
     },
     "C16": {
+        "extra_imports": ["Gofasta.Lemmas.Refusals"],
+        "extra_theorems": ["Gofasta.Lemmas.Refusals.trailing_header_refused", "Gofasta.Props.C16.last_record_checked", "Gofasta.Props.C16.old_finish_dropped_last", "Gofasta.Props.C16.finish_eq_old"],
         "cli": True,
         "streams": {"C16": (3000, 60000), "C16fuzz": (0, 40)},
         "thorough_seeds": 3,
@@ -200,8 +202,8 @@ PROPS = {
                 "-race build; non-trivial = every case (each compares several schedules); tag jitter-inverted-an-order = the hook observed an order inversion",
     },
     "C18": {
-        "extra_imports": ["Gofasta.Props.Cli"],
-        "extra_theorems": ["Gofasta.Props.Cli.topranking_defaults", "Gofasta.Props.Cli.window_defaults"],
+        "extra_imports": ["Gofasta.Lemmas.Refusals", "Gofasta.Props.Cli"],
+        "extra_theorems": ["Gofasta.Lemmas.Refusals.fails_unequal_rows", "Gofasta.Lemmas.Refusals.readFasta_unequal_rows", "Gofasta.Lemmas.Refusals.readFasta_ok_widths", "Gofasta.Lemmas.Refusals.trailing_header_refused", "Gofasta.Lemmas.Refusals.trailing_header_commands_refused", "Gofasta.Lemmas.Refusals.fails_trailing_header", "Gofasta.Lemmas.Refusals.fails_single_header", "Gofasta.Lemmas.Refusals.snpsOnText_error_iff", "Gofasta.Lemmas.Refusals.listOnText_error_iff", "Gofasta.Lemmas.Refusals.trOnText_error_iff", "Gofasta.Lemmas.Refusals.closestOnText_error_iff", "Gofasta.Lemmas.Refusals.varCommand_error_iff", "Gofasta.Lemmas.Refusals.snpsOnText_valid", "Gofasta.Lemmas.Refusals.listOnText_valid", "Gofasta.Lemmas.Refusals.trOnText_valid", "Gofasta.Lemmas.Refusals.checkArgs_none_iff", "Gofasta.Props.Cli.topranking_defaults", "Gofasta.Props.Cli.window_defaults"],
         "streams": {"C18": (500, 4000)},
         "thorough_seeds": 3,
         "cli": True,
